@@ -97,6 +97,34 @@ def write_dimacs(path, N, clauses):
 
 # ---------------------------------------------------------------------------
 # drivers
+def production_first(make):
+    """The artefact that is judged is the one produced with the verification hook OFF (the code path users
+    run); a second run with the hook on supplies the witness, which is attached only when the two runs
+    produced the same thing.  A defect that the hook itself would mask is therefore still seen."""
+    import functools
+
+    @functools.wraps(make)
+    def wrapper(*a, **k):
+        saved = os.environ.pop("CNFGEN_VERIF", None)
+        try:
+            off = make(*a, **k)
+        finally:
+            if saved is not None:
+                os.environ["CNFGEN_VERIF"] = saved
+        if saved is None:
+            return off
+        on = make(*a, **k)
+        if off is None or on is None:
+            return on
+        if off["outcome"] == on["outcome"] and off["G"] == on["G"]:
+            return on
+        off["hasw"], off["w"] = 0, dict(NOW)
+        off["route_note"] = "output differs from the run with the hook on"
+        return off
+    return wrapper
+
+
+@production_first
 def lib_record(rid, N, clauses, af, ap, ac, seed, route="lib", kf=None):
     """One library call Shuffle(F, af, ap, ac) after random.seed(seed)."""
     from cnfgen.transformations.shuffle import Shuffle
@@ -151,6 +179,7 @@ def w_from_trace(ws):
                "cmap": [[int(o), int(n)] for (o, n) in w[2]]}
 
 
+@production_first
 def tool_record(rid, wd, N, clauses, sw, seed, long, sub, kf=None, stdin=False):
     """cnfshuffle on a DIMACS file written here; output read with lex_dimacs."""
     inp = os.path.join(wd, "in_%s.cnf" % rid)
@@ -169,6 +198,8 @@ def tool_record(rid, wd, N, clauses, sw, seed, long, sub, kf=None, stdin=False):
         env = dict(os.environ)
         env.update({"PYTHONPATH": common.REPO, "CNFGEN_VERIF": "1", "CNFGEN_VERIF_TRACE": trace,
                     "PYTHONHASHSEED": "0", "PYTHONWARNINGS": "ignore"})
+        if "CNFGEN_VERIF" not in os.environ:
+            env.pop("CNFGEN_VERIF")
         with open(inp) as fin:
             p = subprocess.run(["/venv/bin/python", "-m", "cnfgen.clitools.cnfshuffle"] + argv[1:],
                                cwd=common.REPO, env=env, stdin=fin if stdin else subprocess.DEVNULL,
@@ -225,6 +256,7 @@ def head_formula(head):
     return _HEADS[key]
 
 
+@production_first
 def tshuffle_record(rid, wd, base, sw, seed, long, pre=(), double=False):
     """cnfgen <base> [-T pre...] -T shuffle [switches]; the input of the shuffle is
     what the same command line produces without the final -T shuffle."""
@@ -260,6 +292,7 @@ def tshuffle_record(rid, wd, base, sw, seed, long, pre=(), double=False):
     return rec
 
 
+@production_first
 def tshuffle_sub_record(rid, wd, base, sw, seed, long):
     """The same through a fresh process: python -m cnfgen.clitools.cnfgen ... -T shuffle, DIMACS output lexed here,
     witness from the CNFGEN_VERIF_TRACE file."""
@@ -275,6 +308,8 @@ def tshuffle_sub_record(rid, wd, base, sw, seed, long):
     env = dict(os.environ)
     env.update({"PYTHONPATH": common.REPO, "CNFGEN_VERIF": "1", "CNFGEN_VERIF_TRACE": trace,
                 "PYTHONHASHSEED": "0", "PYTHONWARNINGS": "ignore"})
+    if "CNFGEN_VERIF" not in os.environ:
+        env.pop("CNFGEN_VERIF")
     p = subprocess.run(["/venv/bin/python", "-m", "cnfgen.clitools.cnfgen"] + argv, cwd=common.REPO, env=env,
                        stdin=subprocess.DEVNULL, stdout=subprocess.PIPE, stderr=subprocess.PIPE,
                        text=True, timeout=300)
